@@ -78,10 +78,15 @@ func ssaTerm(v ssa.Value, idx *[]string, depth int) string {
 		return x.Op.String() + ssaTerm(x.X, idx, depth+1)
 	case *ssa.BinOp:
 		a, b := ssaTerm(x.X, idx, depth+1), ssaTerm(x.Y, idx, depth+1)
-		if (x.Op == token.MUL || x.Op == token.ADD) && b < a {
+		if (x.Op == token.MUL || x.Op == token.ADD || x.Op == token.EQL || x.Op == token.NEQ) && b < a {
 			a, b = b, a
 		}
+		if x.Op == token.NEQ {
+			return "!(" + a + " == " + b + ")"
+		}
 		return "(" + a + " " + x.Op.String() + " " + b + ")"
+	case *ssa.MultiConvert:
+		return ssaTerm(x.X, idx, depth+1)
 	case *ssa.Call:
 		var args []string
 		for _, a := range x.Call.Args {
@@ -283,4 +288,69 @@ func (c *Ctx) callTerms(fi *load.FuncInfo, pkgName string) []string {
 	}
 	sort.Strings(out)
 	return out
+}
+
+// ssaPaths summarises a loop-free function as the set of its paths: the branch conditions taken
+// (x != y is printed as !(x == y), operands of == in a fixed order), the module calls made for
+// their effect, and what is returned. ok=false when the function has a loop.
+func ssaPaths(fn *ssa.Function) ([]string, bool) {
+	if fn == nil || len(fn.Blocks) == 0 {
+		return nil, false
+	}
+	var out []string
+	ok := true
+	var walk func(b *ssa.BasicBlock, seen map[*ssa.BasicBlock]bool, acc []string)
+	walk = func(b *ssa.BasicBlock, seen map[*ssa.BasicBlock]bool, acc []string) {
+		if seen[b] {
+			ok = false
+			return
+		}
+		seen[b] = true
+		defer delete(seen, b)
+		for _, in := range b.Instrs {
+			switch x := in.(type) {
+			case *ssa.Call:
+				// a call whose result nobody uses is made for its effect
+				if x.Referrers() == nil || len(*x.Referrers()) == 0 {
+					acc = append(acc, "call "+ssaTerm(x, new([]string), 0))
+				}
+			case *ssa.Store:
+				acc = append(acc, "store "+ssaTerm(x.Addr, new([]string), 0)+" = "+ssaTerm(x.Val, new([]string), 0))
+			case *ssa.Return:
+				var rs []string
+				for _, r := range x.Results {
+					rs = append(rs, ssaTerm(r, new([]string), 0))
+				}
+				out = append(out, strings.Join(append(append([]string{}, acc...), "return "+strings.Join(rs, ", ")), "; "))
+				return
+			case *ssa.If:
+				cond := ssaTerm(x.Cond, new([]string), 0)
+				pos, neg := cond, "!"+cond
+				if bo, isB := x.Cond.(*ssa.BinOp); isB && (bo.Op == token.NEQ || bo.Op == token.EQL) {
+					a, c2 := ssaTerm(bo.X, new([]string), 0), ssaTerm(bo.Y, new([]string), 0)
+					if c2 < a {
+						a, c2 = c2, a
+					}
+					eq := "(" + a + " == " + c2 + ")"
+					if bo.Op == token.EQL {
+						pos, neg = eq, "!"+eq
+					} else {
+						pos, neg = "!"+eq, eq
+					}
+				}
+				walk(b.Succs[0], seen, append(append([]string{}, acc...), pos))
+				walk(b.Succs[1], seen, append(append([]string{}, acc...), neg))
+				return
+			case *ssa.Jump:
+				walk(b.Succs[0], seen, acc)
+				return
+			case *ssa.Panic:
+				out = append(out, strings.Join(append(append([]string{}, acc...), "panic"), "; "))
+				return
+			}
+		}
+	}
+	walk(fn.Blocks[0], map[*ssa.BasicBlock]bool{}, nil)
+	sort.Strings(out)
+	return out, ok
 }
